@@ -30,11 +30,11 @@ ASSUMPTIONS = [
     "L2 anomalies (non-LIFO uncover, uncover not the inverse of cover) are events, not violations (DESIGN section 3)",
 ]
 STRATA = [
-    ("random", 1500, 30000),
-    ("planted", 900, 18000),
-    ("dense", 300, 6000),
-    ("structured", 80, 1200),
-    ("limits", 500, 10000),
+    ("random", 5000, 60000),
+    ("planted", 3000, 40000),
+    ("dense", 1000, 12000),
+    ("structured", 240, 2400),
+    ("limits", 1800, 24000),
     ("exh-small", 1, 1),
     ("exh-3x3", 1, 1),
     ("exh-2x4", 1, 1),
@@ -51,7 +51,8 @@ REQUIRED_EVENTS = {"any": ["xc.cover-valid", "xc.all.complete", "xc.infeasible-i
 _dlx = None
 _mon = None
 _St = None
-BUDGET = 6_000_000
+BUDGET_SMALL = 400_000   # matrices with <= 20 rows (clean tree needs < 30 000)
+BUDGET_LARGE = 4_000_000
 
 
 def setup():
@@ -116,6 +117,10 @@ def _gen_random(rng, tier):
     nc = rng.randint(1, 6)
     dens = rng.choice([0.2, 0.35, 0.5])
     M = [[1 if rng.random() < dens else 0 for _ in range(nc)] for _ in range(nr)]
+    if rng.random() < 0.6:  # no empty column (an empty primary column ends the search at once)
+        for j in range(nc):
+            if not any(r[j] for r in M):
+                M[rng.randrange(nr)][j] = 1
     if rng.random() < 0.3:
         M.insert(rng.randrange(len(M) + 1), list(rng.choice(M)))
     if rng.random() < 0.2:
@@ -282,13 +287,26 @@ class _Ctx:
 
 def _solve(cx, obs, what, **kw):
     """One monitored call of the real solve_exact_cover; returns (result | Crash, monitor report)."""
+    import sys
+
     from vf.common import call
 
+    budget = BUDGET_SMALL if len(cx.M) <= 20 else BUDGET_LARGE
+    old_limit = sys.getrecursionlimit()
+    depth = 0
+    f = sys._getframe()
+    while f is not None:
+        depth += 1
+        f = f.f_back
     _mon.begin()
     try:
-        r = call(obs, _dlx.solve_exact_cover, cx.M_arg, columns=cx.cols_arg, secondary=cx.sec_arg, budget=BUDGET,
+        # the interpreter's default recursion limit (what every user gets), not the worker's raised one:
+        # a corrupted link structure then ends in crash:RecursionError quickly
+        sys.setrecursionlimit(depth + 1000)
+        r = call(obs, _dlx.solve_exact_cover, cx.M_arg, columns=cx.cols_arg, secondary=cx.sec_arg, budget=budget,
                  what=f"solve_exact_cover[{what}]", **kw)
     finally:
+        sys.setrecursionlimit(old_limit)
         rep = _mon.end()
     for k, v in rep["counts"].items():
         obs.event(k, v)
@@ -580,6 +598,10 @@ def run(case, obs):
         _run_exh(case, obs)
     else:
         _run_xc(case, obs)
+    det = getattr(obs, "l2_detail", None)
+    if det and obs.violations:  # witness carries the L2 trace up to the first broken invariant
+        cls, txt = obs.violations[0]
+        obs.violations[0] = (cls, (txt + " || first L2 anomaly: " + det[0][0] + ": " + det[0][1])[:3000])
 
 
 # ------------------------------------------------------------------ minimisation / attribution
